@@ -311,6 +311,11 @@ def record_cases(quick, rot):
         for n in range(1, plen + 1):
             for pre in itertools.product(FIELD_TYPES, repeat=n):
                 out.append({"kind": "recbatch", "enc": enc, "prefix": list(pre), "plen": plen, "maxlen": maxlen, "rot": rot})
+    # records beyond io.DEFAULT_BUFFER_SIZE (8192) fields: the writer hands its data on in slices
+    for enc in ("bin", "ascii"):
+        for t in ("int", "float", "double", "string"):
+            for types in (["list:%s:8193" % t], ["int", "list:%s:9000" % t, "double"], ["list:%s:8191" % t, "str8"], ["list:%s:16385" % t]):
+                out.append({"kind": "rec", "enc": enc, "types": types, "v": 0, "rot": rot})
     return out, maxlen
 
 
@@ -839,7 +844,8 @@ def word_sources(quick, rot, fmt_cases):
     per = 6 if quick else 24
     byfmt = {}
     for c in fmt_cases:
-        byfmt.setdefault(c["spec"]["fmt"], []).append(c["spec"])
+        if not c["spec"].get("big"):  # the buffer-size containers have thousands of words: not word sources
+            byfmt.setdefault(c["spec"]["fmt"], []).append(c["spec"])
     for fmt, specs in byfmt.items():
         entry = F.FORMATS.get(fmt) or X.FORMATS[fmt]
         sized = sorted(((_ref_size(entry, s, rot), k) for k, s in enumerate(specs)))
